@@ -233,7 +233,7 @@ func peerKey(i int) *k1.PrivateKey {
 	return k1.PrivKeyFromBytes(h[:])
 }
 
-var peerAlterations = []string{"bare_signature_duty", "other_duty_type", "leaf", "leaf", "leaf", "signed_by_other_share", "other_validator_pubkey", "unknown_pubkey", "share_idx_0", "share_idx_n+1", "share_idx_negative", "zero_signature", "gated_slot", "invalid_duty_type", "wrong_domain", "other_fork"}
+var peerAlterations = []string{"bare_signature_duty", "other_duty_type", "leaf", "leaf", "leaf", "signed_by_other_share", "other_validator_pubkey", "unknown_pubkey", "share_idx_0", "share_idx_n+1", "share_idx_negative", "claims_receivers_share_idx", "claims_third_share_idx", "zero_signature", "gated_slot", "invalid_duty_type", "wrong_domain", "other_fork"}
 
 func TestC10PeerPath(t *testing.T) {
 	vstat.Rule("C10", rulePeer)
@@ -388,6 +388,19 @@ func TestC10PeerPath(t *testing.T) {
 			raw := make([]byte, 48)
 			raw[3] = 9
 			pub, _ = core.PubKeyFromBytes(raw)
+		case "claims_receivers_share_idx":
+			// the sender's own (valid) signature filed under the share index of the node that receives it
+			idx = meIdx + 1
+		case "claims_third_share_idx":
+			if n < 3 {
+				rt.Skip("needs a third share")
+			}
+			for k := 1; k <= n; k++ {
+				if k != share && k != meIdx+1 {
+					idx = k
+					break
+				}
+			}
 		case "share_idx_0":
 			idx = 0
 		case "share_idx_n+1":
